@@ -24,6 +24,25 @@ CLAIMED = {
          "Trusted: the region-list model, the Sink stub (never a short write with nil error), the allocator shim. After a sink failure only stickiness and the prefix property are demanded. Multi-flush bytes-backed writers are not generated (undefined by the property).", "4 C05"),
  "C09": ("Seeded exploration of retention histories: every zero-copy slice returned by Next/Peek is kept and re-verified after every later operation, co-tenant step and pool flush until the next Release; writer regions are filled late/partially/repeatedly up to the Flush; caller memory is registered with the allocator shim and compared with snapshots. Runs under three allocator modes: ledger+poison (double/interior/caller-memory free and write-after-free detected at the call), fence (every buffer its own mmap region, PROT_NONE after Free plus guard page: any access after recycle faults and is attributed), and the real mcache with the co-tenant as the only adversary.",
          "Trusted: the allocator shim's ledger and fence bookkeeping, the keyed-content comparison. 'Never read again after recycle' is decided precisely only in fence mode; in ledger mode reads after free show up as poison in results.", "4 C09"),
+
+ "C01": ("Seeded exploration of the stream clauses: records of primitive items are written with thrift.BufferWriter over bufiox.DefaultWriter into a simulated Sink with flush points and buffer growth anywhere inside the record, and read back with thrift.BufferReader over bufiox.DefaultReader from a simulated Source under every fragmentation profile (1-byte, short, zero-byte reads, data with EOF) with Release between items; Sink bytes, decoded values (doubles by bit pattern) and Readn deltas are compared with an independent reference encoder. The in-place/append writers, *Length functions and buffer readers see the same values as a by-product.",
+         "Value-space clauses (all 2^32 i32 values, etc.) are sampled with boundary bias only; exhaustive value enumeration is a different technique and not attempted. Trusted: reference encoder, Source/Sink stubs.", "4 C01"),
+ "C02": ("Seeded exploration: well-formed value trees (all types, 11x11 key/value pairs swept over the batch, 0/1/2/many elements, fast and slow paths, nesting to 63, strings beyond the buffer size) with raw chunks in between and trailing bytes are delivered by a simulated Source to each stream-fed skipper, interleaved with Release, ordinary reads and pooled-decoder reuse; consumed length (ReadLen delta, Source cursor: no read-ahead), returned bytes and the following bytes are checked against the reference encoding, including final data arriving together with io.EOF. The two buffer skippers see the same bytes as differential partners.",
+         "Trusted: reference encoder/length, Source stub. Value shapes are sampled, not enumerated.", "4 C02"),
+ "C06": ("Seeded exploration through streams: parameter sets (incl. ACL token, empty/64KiB-scale strings, every padding residue, sizes aimed at just under/at/over the 65536 limit) are encoded into a DefaultWriter that already holds unflushed data (meta region allocated before, size field written after 0..many growths), into a bytes-backed writer and with EncodeToBytes; the caller writes the total length and a payload; the frame is judged by an independent layout parser and decoded through a fragmenting Source and with DecodeFromBytes; header length = bytes written = bytes consumed, payload delimited exactly.",
+         "Trusted: independent TTHeader layout parser (wide arithmetic). Frames are compared canonically because Go map order is not seedable. Encode failing is always allowed by the property and only counted.", "4 C06"),
+ "C08": ("Seeded exploration of malformed input reaching all five skippers, the three stream-fed ones through a fragmenting Source: generated value trees (incl. chains nested 1..70 of every container kind) pass through a fault transport (truncation at cut points biased to structural boundaries; corruption of type tags incl. >= 0x80, sizes 0x7fffffff/0x80000000/0xffffffff/size+-1, field ids; hostile requested type); every facility's accept/reject/extent is compared with an independent iterative reference parser per the Appendix A table; a simulated memory ceiling turns giant allocation requests into a recoverable event so hostile sizes can be presented safely.",
+         "Trusted: reference parser. Depth 64 is exempt, unknown tags of empty containers are don't-care, simulated OOM is accepted only for positive declared sizes above the ceiling in facilities that buffer what they skip. Grammar enumeration is not attempted.", "4 C08"),
+ "C10": ("Seeded exploration of hostile frames arriving over a stream: frames laid out by the reference builder from arbitrary section plans (any order, repeats, interleaved padding, transform ids) pass through truncation, structural-byte corruption with boundary values (size field 0/1/0x3fff/0x4000/0x4001/0x8000/0xffff, magic, protocol id, info ids, counts, string lengths) and splices, then reach Decode through a fragmenting Source and DecodeFromBytes. One-directional oracle as the property states: no panic/hang, bounded consumption, success only under the reference parser's necessary conditions, and then exact header/payload lengths and maps.",
+         "Trusted: independent parser with wide arithmetic. Unknown info ids are don't-care for accept/reject; duplicate keys are don't-care for map equality. Field-value enumeration (all 65536 size fields) is not attempted.", "4 C10"),
+ "C12": ("Seeded exploration of exchanges between a writer peer (in-place, append or stream message-begin writer, the stream writer also after unflushed data) and a reader peer (buffer reader; stream reader over a fragmenting Source) joined by a transport that truncates at any cut point or corrupts the first word: same name/type/seq and exact consumed length, bad-version and truncation rejected; by-product: MarshalFastMsg/UnmarshalFastMsg incl. the EXCEPTION branch.",
+         "Trusted: reference envelope codec. Value-space clauses are sampled.", "4 C12"),
+ "C14": ("Seeded schedule exploration: 2..8 tasks (writers, readers, the three skip decoders, TTHeader codecs, span-cache decodes, FastCodec structs, shared StrMap/Str2Str Get) are first executed alone, then re-executed with exactly the same decisions under a seeded cooperative scheduler that switches at allocator calls, source reads, sink writes and step boundaries; each task's observable results must equal its solo execution, the allocator ledger/fence must stay clean, and the same tapes run in the -race build where the hand-off is invisible to the race detector, so unsynchronised sharing is reported whatever the interleaving was.",
+         "Trusted: the norace hand-off scheduler, the Go race detector (happens-before; 4 shadow cells per word; reports may need the preceding runs of the same worker, which the replay file records). Interleavings are explored at allocator/I-O/step granularity.", "4 C14"),
+ "C16": ("Seeded exploration of decode histories (buffer readers and the stream reader over a Source, lengths across the span classes, long enough in the thorough tier to wrap the 1 MiB span) in which every decoded value is retained while the input buffer is overwritten, the stream reader's buffer is recycled (poisoned / taken by the co-tenant) and returned byte slices are appended to and overwritten; the same pre-generated history runs with the span cache disabled and enabled and the results are compared.",
+         "Trusted: keyed-content comparison; the span cache's fill position is global state that cannot be reset and is kept out of all oracles.", "4 C16"),
+ "C17": ("Seeded fault injection of five error values (io.EOF, io.ErrUnexpectedEOF, comparable custom, pointer-typed, wrapped) at tape-chosen offsets inside records and value trees read by thrift.BufferReader over a fragmenting Source: the failing call must match the injected error under errors.Is (and keep a wrapped cause chain reachable). By-product: failures of Binary.Skip, the Binary scalar/string/header readers and ReadMessageBegin on the C08 malformed inputs must be protocol exceptions whose type id the reference classifier allows for the first failing node.",
+         "Trusted: reference classifier. Where two causes coincide at one node (out of bytes at nesting 64/65) both ids are accepted; a negative name length inside message-begin is don't-care.", "4 C17"),
 }
 PLANNED = ["C01","C02","C05","C06","C08","C09","C10","C12","C14","C16","C17"]
 
